@@ -49,7 +49,8 @@ def trace(ev):
     ev["pid"] = os.getpid()
     ev["seq"] = _seq[0]
     _seq[0] += 1
-    with open(TRACE, "a") as f:
+    # (the file named by the environment *now*: a second run in the same process writes its own trace)
+    with open(os.environ.get("ZTR_TRACE") or TRACE, "a") as f:
         f.write(json.dumps(ev) + "\n")
 
 
